@@ -231,8 +231,67 @@ def templates(quick):
     yield '٣' * n
 
 
+# -- (d) the same law through a server: a body POSTed plain and as the form field d= ----------
+form_case = st.fixed_dictionaries({
+    'server_form': st.just(True),
+    'impl': st.sampled_from(['thread', 'async']),
+    'texts': st.lists(st.lists(st.sampled_from(list('ab+%&= 41') + ['%41', '%2B', 'é']),
+                               min_size=1, max_size=8).map(''.join), min_size=1, max_size=4),
+    'ctype': st.sampled_from(['application/x-www-form-urlencoded',
+                              'application/x-www-form-urlencoded; charset=UTF-8',
+                              'text/plain;charset=UTF-8', None]),
+})
+
+
+def check_server_form(case, ctx=None):
+    """MESSAGE packets with the given texts, POSTed to a live polling session once as a plain
+    body and once as d=<form-encoded body> (what a JSONP client sends, Content-Type included):
+    the message handler sees the same payloads both times."""
+    import urllib.parse
+    from vk.machine import Exec
+    rep = dict(case)
+    texts = ['x' + t for t in case['texts']]        # (never JSON, never a type digit alone)
+    body = rm.SEP.join('4' + t for t in texts)
+    got = {}
+    for form in ('plain', 'd='):
+        ex = Exec(case['impl'], {'http_compression': False, 'async_handlers': False})
+        try:
+            ex.do({'op': 'open', 'transport': 'polling'})
+            sid = ex.sid_of(ex.sessions[0])
+            w = ex.world
+            hdrs = [('Host', 'localhost')]
+            if form == 'd=':
+                wire = ('d=' + urllib.parse.quote(body, safe='')).encode()
+                if case['ctype']:
+                    hdrs.append(('Content-Type', case['ctype']))
+                q = 'transport=polling&EIO=4&j=0&sid=' + sid
+            else:
+                wire = body.encode()
+                q = 'transport=polling&EIO=4&sid=' + sid
+            r = w.http('POST', q, headers=hdrs, body=wire)
+            w.settle()
+            got[form] = (r.status if r.done else None,
+                         [a for (_, e, _, a) in w.app_log.events if e == 'message'])
+        finally:
+            ex.close()
+    if got['plain'] != (200, texts):
+        raise Violation(ID, case['impl'], 'server-plain-body-misread', 'post',
+                        'plain body of %r: status %s, message events %r' % (
+                            texts, got['plain'][0], got['plain'][1]), rep)
+    if got['d='] != got['plain']:
+        raise Violation(ID, case['impl'], 'packet-changed-or-reordered', 'd=via-server|%s' % (
+            'form-content-type' if case['ctype'] and 'form' in case['ctype'] else 'other'),
+            'POSTed as d=: status %s, message events %r; as a plain body: %r' % (
+                got['d='][0], got['d='][1], got['plain'][1]), rep)
+    if ctx:
+        ctx.case(rep, any(c in ''.join(texts) for c in '+%&'), ['d=-through-a-server',
+                                                               case['impl']])
+
+
 def run_shard(ctx):
     quick = ctx.tier == 'quick'
+    run_given(ctx, form_case, lambda c: check_server_form(c, ctx),
+              max_examples=25 if quick else 400)
     # (b) exhaustive strings, sharded by index
     L = 4 if quick else 5
     alpha = ALPHABET[:20] if quick else ALPHABET
@@ -273,6 +332,8 @@ def run_shard(ctx):
 
 
 def replay(case, ctx):
+    if case.get('server_form'):
+        return check_server_form(case)
     if 'packets' in case:
         check_list([(t, rm.untag(d)) for t, d in case['packets']])
     else:
